@@ -27,6 +27,11 @@ package store
 //@   loop 0 invariant -1 <= rangeindex && rangeindex < len(dir.Ignore) && forall(k, 0, rangeindex+1, !dir.Ignore[k].MatchString(relPath))
 //@   loop 1 invariant -1 <= rangeindex && rangeindex < len(dir.Include) && forall(k, 0, rangeindex+1, !dir.Include[k].MatchString(relPath)) && forall(k, 0, len(dir.Ignore), !dir.Ignore[k].MatchString(relPath))
 
+// the exported form (used by the client's start-up recovery) applies the rules to the same name as the scan
+//@ func (*Local).ShouldIgnore
+//@   on return assert rules-apply-to-the-relative-name: called((*Local).shouldIgnore) && lastarg((*Local).shouldIgnore, 1) == file.GetName() && lastarg((*Local).shouldIgnore, 2) == false && result == lastret((*Local).shouldIgnore, 0) && ncalls((*Local).shouldIgnore) == 1
+//@   modifies nothing
+
 //@ func (*Local).handleNode
 //@   track store scanFiles
 //@   before store scanFiles assert appended-only-if-eligible: info != nil && old(err) == nil && !lastret(fs.FileInfo.IsDir, 0) && relPath != "" && called((*Local).shouldIgnore) && !lastret((*Local).shouldIgnore, 0) && lastarg((*Local).shouldIgnore, 1) == relPath && !lastarg((*Local).shouldIgnore, 2) && dir.scanTimeStart - lastret(fs.FileInfo.ModTime, 0) >= dir.MinAge && (dir.shouldAllow == nil || (called(shouldAllow) && lastret(shouldAllow, 0))) && lastret(newLocalFile, 1) == nil && relPath == lastret((*Local).getRelPath, 0) && lastarg((*Local).getRelPath, 1) == path
